@@ -208,12 +208,17 @@ namespace occa {
   //   include_paths : Array
 
   hash_t kernelHeaderHash(const occa::json &props) {
-    return (
-      occa::hash(props["defines"])
-      ^ props["functions"]
-      ^ props["includes"]
-      ^ props["headers"]
-    );
+    // Hash every value together with the name of its property and chain the
+    // results: XOR-ing the bare value hashes made the key independent of which
+    // property holds which value
+    const char *keys[] = {"defines", "functions", "includes", "headers"};
+    hash_t hash_ = occa::hash("kernelHeaderHash");
+    for (const char *key : keys) {
+      hash_ = occa::hash(
+        hash_.getFullString() + key + occa::hash(props[key]).getFullString()
+      );
+    }
+    return hash_;
   }
 
   std::string assembleKernelHeader(const occa::json &props) {
